@@ -35,7 +35,8 @@ for X in ('a', 'g'):
                                f'inv(damped(old(val(awaited(self._{X}_factor))), old(awaited(self._{X}_factor).shape[0]), damping))'),
             ('stored_in_inverse_dtype', f'implies(self.inv_dtype is not None, self._{X}_inv.dtype is self.inv_dtype)'),
             ('same_shape', f'self._{X}_inv.shape == old(awaited(self._{X}_factor).shape)'),
-            ('factor_untouched', f'val(awaited(self._{X}_factor)) == old(val(awaited(self._{X}_factor)))'),
+            ('factor_untouched', f'val(awaited(self._{X}_factor)) == old(val(awaited(self._{X}_factor))) and '
+                                 f'awaited(self._{X}_factor) is old(awaited(self._{X}_factor))'),
         ],
         modifies=[f'self._{X}_inv', f'self._{X}_factor', '*.resolved', 'ghost:next_sid'],
     )
@@ -44,16 +45,20 @@ for X in ('a', 'g'):
         requires=PENDING(f'_{X}_inv') + PENDING(f'_{X}_factor') + [
             ('member_of_group', 'in_group(group)'), ('root_is_member', 'rank_in_group(src, group)'), ('tdc_present', 'self.tdc is not None'),
             ('inverse_square', f'implies(self._{X}_inv is not None, is_square(awaited(self._{X}_inv).shape))'),
-            ('receiver_knows_the_shape', f'implies(self._{X}_inv is None and my_rank() != src, is_tensor(self._{X}_factor) and is_square(self._{X}_factor.shape))')],
-        raises=[('RuntimeError', f'self._{X}_inv is None and my_rank() == src')],
+            ('factor_square', f'implies(self._{X}_factor is not None, is_square(awaited(self._{X}_factor).shape))')],
+        raises=[('RuntimeError', f'self._{X}_inv is None and my_rank() == src'),
+                # a receiver sizes its buffer from its own copy of the factor
+                ('AssertionError', f'self._{X}_inv is None and my_rank() != src and self._{X}_factor is None')],
         ensures=[
             ('holds_inverse', f'self._{X}_inv is not None'),
             ('root_keeps_value', f'implies(my_rank() == src and not (self.symmetric_factors and self.symmetry_aware), '
                                  f'val(awaited(self._{X}_inv)) == old(val(awaited(self._{X}_inv))))'),
-            ('receive_buffer_matches_sender', f'implies(old(self._{X}_inv) is None, awaited(self._{X}_inv).shape == old(self._{X}_factor.shape) '
+            ('receive_buffer_matches_sender', f'implies(old(self._{X}_inv) is None, awaited(self._{X}_inv).shape == old(awaited(self._{X}_factor).shape) '
                                               f'and awaited(self._{X}_inv).dtype is self.inv_dtype)'),
             ('alone_nothing_sent', 'implies(group_size(group) == 1, trace() == old(trace()))'),
             ('one_broadcast_otherwise', 'implies(group_size(group) != 1, len(trace()) == len(old(trace())) + 1)'),
+            ('stays_square', f'is_square(awaited(self._{X}_inv).shape)'),
+            ('factor_kept', f'awaited(self._{X}_factor) is old(awaited(self._{X}_factor))'),
         ],
         modifies=[f'self._{X}_inv', f'self._{X}_factor', '*.resolved', '*.val', 'ghost:trace', 'ghost:next_sid'],
     )
@@ -70,7 +75,8 @@ contract(
         ('result_is_its_own_tensor', 'is_fresh(self._grad) and len(self._grad.shape) == 2'),
         ('module_gradients_untouched', 'val(self.module.module.weight.grad) == old(val(self.module.module.weight.grad)) and '
                                        'self.module.module.weight.grad is old(self.module.module.weight.grad)'),
-        ('inverses_untouched', 'val(awaited(self._a_inv)) == old(val(awaited(self._a_inv))) and val(awaited(self._g_inv)) == old(val(awaited(self._g_inv)))'),
+        ('inverses_untouched', 'val(awaited(self._a_inv)) == old(val(awaited(self._a_inv))) and val(awaited(self._g_inv)) == old(val(awaited(self._g_inv))) '
+                               'and awaited(self._a_inv) is old(awaited(self._a_inv)) and awaited(self._g_inv) is old(awaited(self._g_inv))'),
     ],
     modifies=['self._grad', 'self._a_inv', 'self._g_inv', '*.resolved', 'ghost:next_sid'],
 )
@@ -114,7 +120,7 @@ contract(
         ('clamped_eigenvalues', 'is_tensor(self._da) and val(self._da) == clampmin(eigvals(old(val(awaited(self._a_factor)))), 0.0)'),
         ('stored_in_inverse_dtype', 'implies(self.inv_dtype is not None, self._qa.dtype is self.inv_dtype and self._da.dtype is self.inv_dtype)'),
         ('shapes', 'self._qa.shape == old(awaited(self._a_factor).shape) and len(self._da.shape) == 1 and self._da.shape[0] == old(awaited(self._a_factor).shape[0])'),
-        ('factor_untouched', 'val(awaited(self._a_factor)) == old(val(awaited(self._a_factor)))'),
+        ('factor_untouched', 'val(awaited(self._a_factor)) == old(val(awaited(self._a_factor))) and awaited(self._a_factor) is old(awaited(self._a_factor))'),
     ],
     modifies=['self._qa', 'self._da', 'self._a_factor', '*.resolved', 'ghost:next_sid'],
 )
@@ -132,7 +138,7 @@ contract(
         # pre-division bakes the damping of THIS refresh into 1 / (dg (x) da + damping)
         ('predivided', 'implies(self.prediv_eigenvalues, is_tensor(self._dgda) and self._dg is None and self._da is None and '
                        'val(self._dgda) == rdiv(1, sadd(outer(dgv, old(val(awaited(self._da)))), damping)))'),
-        ('factor_untouched', 'val(awaited(self._g_factor)) == old(val(awaited(self._g_factor)))'),
+        ('factor_untouched', 'val(awaited(self._g_factor)) == old(val(awaited(self._g_factor))) and awaited(self._g_factor) is old(awaited(self._g_factor))'),
     ],
     modifies=['self._qg', 'self._dg', 'self._da', 'self._dgda', 'self._g_factor', '*.resolved', 'ghost:next_sid'],
 )
